@@ -301,6 +301,69 @@ class Ring(Component):   # a large cyclic group with a branch in every block; ev
       else:        s.x[11] @= s.x[10] >> 1
     @update
     def up_o(): s.out @= s.x[11]
+class L14(Component):   # TWO separate cyclic groups (false loops) in one design, the second fed by the first
+  def construct(s):
+    s.in_ = InPort(8); s.out = OutPort(8); s.a = Wire(8); s.b = Wire(8); s.c = Wire(8); s.d = Wire(8); s.e = Wire(8); s.f = Wire(8)
+    @update
+    def l1_x():
+      s.a @= s.in_ + 1
+      s.b @= s.c + 1
+    @update
+    def l1_y(): s.c @= s.a + 1
+    @update
+    def l2_x():
+      s.d @= s.b ^ 0xff
+      s.e @= s.f + 3
+    @update
+    def l2_y(): s.f @= s.d + 1
+    @update
+    def up_out(): s.out @= s.e
+class L14twin(Component):
+  def construct(s):
+    s.in_ = InPort(8); s.out = OutPort(8); s.b = Wire(8); s.e = Wire(8)
+    @update
+    def up_b(): s.b @= s.in_ + 3
+    @update
+    def up_e(): s.e @= ((s.b ^ 0xff) + 1) + 3
+    @update
+    def up_out(): s.out @= s.e
+class L15(Component):   # a written slice strictly contains the slice the other block reads (and the other way round): block-level cycle
+  def construct(s):
+    s.in_ = InPort(8); s.a = Wire(8); s.q = Wire(4); s.out = OutPort(8); s.o2 = OutPort(4)
+    @update
+    def upW():
+      s.a[0:8] @= s.in_ ^ 0x5a
+      s.o2 @= s.q + 1
+    @update
+    def upR():
+      s.q @= s.a[2:6]
+      s.out @= s.a
+class L15twin(Component):
+  def construct(s):
+    s.in_ = InPort(8); s.out = OutPort(8); s.o2 = OutPort(4); s.a = Wire(8)
+    @update
+    def up_a(): s.a @= s.in_ ^ 0x5a
+    @update
+    def up_o():
+      s.out @= s.a
+      s.o2 @= s.a[2:6] + 1
+class L16(Component):   # reader slice contains the written slices
+  def construct(s):
+    s.in_ = InPort(8); s.a = Wire(8); s.q = Wire(6); s.o2 = OutPort(6)
+    @update
+    def upW():
+      s.a[2:4] @= s.in_[0:2]
+      s.a[4:6] @= s.in_[2:4]
+      s.a[0:2] @= 0
+      s.a[6:8] @= 3
+      s.o2 @= s.q
+    @update
+    def upR(): s.q @= s.a[1:7]
+class L16twin(Component):
+  def construct(s):
+    s.in_ = InPort(8); s.o2 = OutPort(6)
+    @update
+    def up_o(): s.o2 @= concat(Bits1(1), s.in_[2:4], s.in_[0:2], Bits1(0))
 class Once(Component):   # update_once inside a cycle: must be rejected at scheduling time
   def construct(s):
     s.in_ = InPort(4); s.a = Wire(4); s.b = Wire(4)
@@ -309,8 +372,9 @@ class Once(Component):   # update_once inside a cycle: must be rejected at sched
     @update_once
     def upB(): s.b @= s.a & 6
 '''
-NAMES = ['L0', 'L1', 'L2', 'L3', 'L4', 'L5', 'L6', 'L7', 'L8', 'L9', 'L10', 'L11', 'L12', 'L13', 'Ring', 'RingComp', 'ForkJoin']
-TWINS = {'L6': ('L6twin', ['s.w']), 'L7': ('L7twin', ['s.z']), 'L10': ('L10twin', ['s.q', 's.z']), 'L12': ('L12twin', ['s.e', 's.y.a', 's.y.b'])}
+NAMES = ['L0', 'L1', 'L2', 'L3', 'L4', 'L5', 'L6', 'L7', 'L8', 'L9', 'L10', 'L11', 'L12', 'L13', 'L14', 'L15', 'L16', 'Ring', 'RingComp', 'ForkJoin']
+TWINS = {'L6': ('L6twin', ['s.w']), 'L7': ('L7twin', ['s.z']), 'L10': ('L10twin', ['s.q', 's.z']), 'L12': ('L12twin', ['s.e', 's.y.a', 's.y.b']),
+         'L14': ('L14twin', ['s.out', 's.b', 's.e']), 'L15': ('L15twin', ['s.out', 's.o2']), 'L16': ('L16twin', ['s.o2'])}
 _mod = None
 
 
